@@ -401,13 +401,17 @@ inline Json::Value genKillPlan(Rng& rng, const KillGenOpts& o) {
   if (o.oomGroupFlipP > 0 && !wg.paths.empty())
     for (int t = 1; t < ticks; t++)
       if (rng.chance(o.oomGroupFlipP)) {
-        // memory.oom.group is a writable file: switched on or off between
-        // two ticks on a cgroup oomd has already looked at
+        // memory.oom.group is a writable file: switched on between two
+        // ticks on a cgroup oomd has already looked at. (Only on: switching
+        // it off makes oomd look at children it has never sampled, whose
+        // per-tick rates are legitimately unavailable on that first visit -
+        // the reference, which samples everything every tick, would raise
+        // false alarms there; seen in thorough runs.)
         Json::Value op(Json::objectValue);
         op["t"] = t;
         op["op"] = "set";
         op["cg"] = rng.pick(wg.paths);
-        op["v"]["oom_group"] = rng.chance(0.5);
+        op["v"]["oom_group"] = true;
         ops.append(op);
       }
   plan["ops"] = ops;
